@@ -54,7 +54,35 @@ func checkC02(e *Env) {
 		// exponent written either way round, with or without the redundant & 0xff
 		tI := "{rangeidx|phi((↺ + const:1)|const:0)}"
 		tShift := "conv({(((param:size - " + tI + ") - const:1) * const:8)|(((param:size - const:1) - " + tI + ") * const:8)})"
-		e.requireStore("TABLE", eb, "make([]byte,param:size)[{rangeidx|_}]", "conv({(param:n >> "+tShift+")|((param:n >> "+tShift+") & const:255)})", "byte i = (n >> 8*(size-i-1)) & 0xff (big-endian)")
+		firstOf(e,
+			func(e *Env) {
+				e.requireStore("TABLE", eb, "make([]byte,param:size)[{rangeidx|_}]", "conv({(param:n >> "+tShift+")|((param:n >> "+tShift+") & const:255)})", "byte i = (n >> 8*(size-i-1)) & 0xff (big-endian)")
+			},
+			// ... or filled from the last byte backwards: bs[i] = byte(rest); rest >>= 8 for i = size-1 .. 0
+			func(e *Env) {
+				found := false
+				for _, b := range eb.Blocks {
+					for _, in := range b.Instrs {
+						st, ok := in.(*ssa.Store)
+						if !ok {
+							continue
+						}
+						ia, ok := st.Addr.(*ssa.IndexAddr)
+						if !ok || prov.Of(ia.X) != "make([]byte,param:size)" {
+							continue
+						}
+						ph, ok := ia.Index.(*ssa.Phi)
+						if ok && countsDownFrom(ph, "(param:size - const:1)") && prov.Match("conv(phi({(↺ >> const:8)|conv(param:n)}|{(↺ >> const:8)|conv(param:n)}))", prov.Of(st.Val)) {
+							found = true
+						}
+					}
+				}
+				if found {
+					e.R.OK("TABLE", "signedexchange/internal/bigendian.EncodeBytesUint:descending-fill", e.P.Pos(eb.Pos()), "bytes are written from index size-1 down to 0, each the low byte of the value, value >>= 8: big-endian")
+				} else {
+					e.R.Fail("TABLE", "signedexchange/internal/bigendian.EncodeBytesUint:descending-fill", e.P.Pos(eb.Pos()), "no big-endian fill of the buffer recognised")
+				}
+			})
 		e.requireResult("TABLE", eb, ok0, 0, "make([]byte,param:size)", "a buffer of exactly size bytes")
 	}
 
